@@ -543,11 +543,28 @@ func runC03(c *Ctx) {
 			for _, m := range rangeSliceMismatch(ex) {
 				c.R.Bad(rule, core.FuncName(ex)+"/chain-index", cfg, p.Pos(m.Pos()), "a loop over list[k:] indexes the un-sliced list with its own index: nested exceptions are shifted (top duplicated, innermost dropped)")
 			}
+			// Next is built by appends starting from an empty slice
+			for _, b := range ex.Blocks {
+				for _, in := range b.Instrs {
+					st, ok := in.(*ssa.Store)
+					if !ok {
+						continue
+					}
+					fa, ok := st.Addr.(*ssa.FieldAddr)
+					if !ok || !core.IsNamed(fa.X.Type(), core.PkgCh, "Exception") || fieldNameOnly(fa.X.Type(), fa.Field) != "Next" {
+						continue
+					}
+					if bad := nonEmptyRoot(st.Val, 0, map[ssa.Value]bool{}); bad != "" {
+						c.R.Bad(rule, core.FuncName(ex)+"/chain-root", cfg, p.Pos(st.Pos()), "Exception.Next is not built by appending to an empty slice ("+bad+"): zero-valued entries precede the real causes")
+					}
+				}
+			}
 			if len(rangeSliceMismatch(ex)) == 0 {
 				c.R.Ok(rule, core.FuncName(ex)+"/chain-index", cfg, p.Pos(ex.Pos()), "nested exceptions are taken from the ranged sub-slice itself")
 			}
 		}
 	}()
+	ruleResetBefore(c, p, "C03.reset")
 	c.R.Assumptions = append(c.R.Assumptions,
 		"order within one connection follows from the single sequential receive loop",
 		"decided: dispatch table, handler placement, callback error discipline, nil only at end-of-stream, exception chain plumbing; not decided: that the contents seen by callbacks equal what the server sent (value level)")
@@ -679,4 +696,56 @@ func sameSlice(a, b ssa.Value) bool {
 		return true
 	}
 	return false
+}
+
+// nonEmptyRoot: the append chain of v starts from something that may already have elements.
+func nonEmptyRoot(v ssa.Value, d int, seen map[ssa.Value]bool) string {
+	if d > 12 || seen[v] {
+		return ""
+	}
+	seen[v] = true
+	switch x := v.(type) {
+	case *ssa.Const:
+		return ""
+	case *ssa.MakeSlice:
+		if l, ok := core.ConstInt(x.Len); ok && l == 0 {
+			return ""
+		}
+		return "make with a non-zero length"
+	case *ssa.Slice:
+		if x.High != nil {
+			if h, ok := core.ConstInt(x.High); ok && h == 0 {
+				return ""
+			}
+		}
+		return "a re-slice"
+	case *ssa.Phi:
+		for _, e := range x.Edges {
+			if b := nonEmptyRoot(e, d+1, seen); b != "" {
+				return b
+			}
+		}
+	case *ssa.Call:
+		if bi, ok := x.Call.Value.(*ssa.Builtin); ok && bi.Name() == "append" {
+			return nonEmptyRoot(x.Call.Args[0], d+1, seen)
+		}
+	case *ssa.UnOp:
+		// load of the field itself (e.Next = append(e.Next, ...)): follow the stores into the same field of a fresh struct
+		if x.Op == token.MUL {
+			if fa, ok := x.X.(*ssa.FieldAddr); ok {
+				for _, r := range *fa.X.Referrers() {
+					if fa2, ok := r.(*ssa.FieldAddr); ok && fa2.Field == fa.Field && fa2 != fa {
+						for _, r2 := range *fa2.Referrers() {
+							if st, ok := r2.(*ssa.Store); ok && st.Addr == fa2 {
+								if b := nonEmptyRoot(st.Val, d+1, seen); b != "" {
+									return b
+								}
+							}
+						}
+					}
+				}
+			}
+		}
+	}
+	return ""
 }
